@@ -22,11 +22,11 @@ _p("C01", ["instances", "profiling", "shexing", "filtering", "c06_nt"], ["pipeli
    "profile dictionaries), and the selection/tuning stage never writes a count (frame obligations; the original figure is kept as first comment before the "
    "probability is overwritten). The fold of the step contracts over the triple stream, the nested loops that enumerate (property, kind, cardinality) per "
    "instance, and the rendering of figures into text are covered by the " + MON)
-_p("C02", ["filtering", "shexing", "plumbing_profiler"], ["pipeline"],
+_p("C02", ["filtering", "shexing", "plumbing_profiler", "c06_nt", "instances"], ["pipeline"],
    "Deductive: the threshold filter creates exactly one statement per candidate with frequency >= threshold (counting recurrence n_pass, boundary case kept) "
    "and nothing below it; MergeableConstraints keeps one slot per member (counting invariant) and merge_group yields one constraint for the property; "
    "_decide_best returns a member of its group. The two O(n^2) grouping loops and empty-shape removal are covered by the " + MON)
-_p("C03", ["shexing"], ["schemas"],
+_p("C03", ["shexing", "c06_nt"], ["schemas"],
    "Deductive: relaxation rule ('?' iff allow_opt and cardinality 1, else '*'; only below 100 %), exact-cardinality generalisation, '+' always offered and "
    "preferred under keep_less_specific unless useless, with the mode off no cardinality is written. Conformance of every instance (ShEx semantics, "
    "recursive references) is decided by an independent validator on schema-consistent graphs: bounded (schemas.py).")
@@ -46,7 +46,7 @@ _p("C06", ["c06_nt"], ["readers"],
    "remove_corners/add_corners inverse, and the raw-string line reader (exactly the non-blank pieces between LINE FEEDs, in order). Literal scanning with escapes "
    "and the datatype/lang decoding are string code beyond the solvers (replace_all chains): the whole line -> triple function is compared with an independent "
    "grammar-directed generator and rdflib as referee on an exhaustive alphabet of tricky lines: bounded (readers.py).")
-_p("C07", ["c07_ttl"], ["readers"],
+_p("C07", ["c07_ttl", "c06_nt"], ["readers"],
    "Deductive: _find_next_blank (exclusive end of a token: next blank or END of line), _count_prior_backslashes (maximal run; its parity decides whether a quote "
    "is escaped), and the subject/predicate/object automaton (_assing_tmp_element_and_promote_state keeps the other two slots, rejects a term in any other state) "
    "that carries ';' ',' and multi-line statements. Prefix/base expansion of a token is assumed here. Whole documents (3 layouts per statement set, prefix and "
@@ -56,11 +56,11 @@ _p("C08", ["c08_channels", "c06_nt"], ["channels"],
    "check_just_one_not_none inlined from the real source) and the raw-string reader (same lines as a file with the same text: split at LINE FEED only). Parsers "
    "themselves are C06/C07; rdflib, gzip/zip/xz and the file system are assumed. Equality of the extracted shapes across all channels for the same abstract "
    "graph: bounded (channels.py).")
-_p("C09", ["instances", "profiling", "shexing"], ["pipeline"],
+_p("C09", ["instances", "profiling", "shexing", "c06_nt"], ["pipeline"],
    "Deductive: two counting steps commute (lemma over the step contract of pass 2: same counters, same nodes, same class lists in either order); node and "
    "class names are opaque atoms in the verified counting code, so consistent renaming of blank nodes cannot be observed (parametricity of the accepted "
    "encoding); sorting is by probability with the group's members preserved. Permutations and relabelings of whole documents, and the choice under ties: " + MON)
-_p("C10", ["instances", "c10_targets"], ["pipeline"],
+_p("C10", ["instances", "c10_targets", "c06_nt"], ["pipeline"],
    "Deductive: relevance tests (predicate == instantiation property and (all classes or object among the target IRIs); model __eq__ methods inlined from the "
    "real source) and the per-triple step of pass 1 with whole-view frames (node->classes dictionary as a shared heap cell); rdf:type is an ordinary property "
    "under another instantiation property (_decide_type_elem). Selector parsing / SPARQL evaluation and the stream-level composition: " + MON)
@@ -68,14 +68,14 @@ _p("C11", ["c11_shacl", "c18_state"], ["schemas"],
    "Deductive: both serializers verified against one reference table (cardinality -> min/max, statement type -> value restriction, direction -> path) with an "
    "effect-trace contract on every triple handed to rdflib.Graph.add, fresh blank nodes counted. Loops over shapes/statements and rdflib itself are assumed; "
    "the two documents of one Shaper are compared after parsing: bounded (schemas.py).")
-_p("C12", ["filtering", "c20_config"], ["pipeline"],
+_p("C12", ["filtering", "c20_config", "c06_nt", "shexing"], ["pipeline"],
    "Deductive: the threshold is applied once, on raw candidates (filter contracts with the counting recurrence; >= from the statement), the range check of the "
    "argument, frequency = n/N. Monotonicity over pairs of thresholds on whole runs: " + MON)
-_p("C13", ["shexing", "serializers", "c18_state", "plumbing"], ["pipeline"],
+_p("C13", ["shexing", "serializers", "c18_state", "plumbing", "c06_nt"], ["pipeline"],
    "Deductive: the tuning pipeline rewrites exactly what each switch documents (cardinality after tuning = documented function of the cardinality and "
    "probability before; counts, kinds, properties never written; with every switch off nothing is written; disable_comments touches comments only; a "
    "disjunction keeps property, cardinality and figures). Presentation options and decimals rounding on whole runs: " + MON)
-_p("C14", ["instances", "profiling", "c14_step"], ["pipeline"],
+_p("C14", ["instances", "profiling", "c14_step", "c06_nt", "shexing"], ["pipeline"],
    "Deductive: the inverse counting step is the mirror of the direct one (same clause text on the third component, kind of the subject, shape kinds only "
    "for IRI subjects) and leaves the outgoing features of the object untouched; the per-triple step of the inverse strategy is verified as the composition "
    "'direct step on the subject if it is a tracked node + mirror step on the object if it is a tracked NODE (never a literal)' with frames over the whole "
